@@ -36,7 +36,11 @@ def handleDefs (args : List String) : String :=
   match args.foldl step (some ([], [])) with
   | none => "bad-op"
   | some (ds, us) =>
-    let fuel := 2 + (us.map E.size).sum + (ds.map (fun d => d.2.size)).sum
+    -- `fuel_enough`: size e + (R+1)(S+1) suffices when ranks are bounded by R (here: the number of
+    -- definitions) and body sizes by S; running out of it means a cycle
+    let maxUse := (us.map E.size).foldl max 0
+    let maxBody := (ds.map (fun d => d.2.size)).foldl max 0
+    let fuel := maxUse + (ds.length + 1) * (maxBody + 1)
     match image ds us fuel with
     | none => "dup"
     | some rs => " ".intercalate (rs.map showR)
